@@ -213,9 +213,10 @@ def _satsolve_stdin_stdout(F, cmd='lingeling', verbose=0):
             continue
 
         if line[0] == 's':
-            if line.split()[1] == 'SATISFIABLE':
+            answer = line.split()[1:2]
+            if answer == ['SATISFIABLE']:
                 result = True
-            elif line.split()[1] == 'UNSATISFIABLE':
+            elif answer == ['UNSATISFIABLE']:
                 result = False
             else:
                 result = None
@@ -308,9 +309,10 @@ def _satsolve_filein_stdout(F, cmd='sat4j', verbose=0):
             continue
 
         if line[0] == 's':
-            if line.split()[1] == 'SATISFIABLE':
+            answer = line.split()[1:2]
+            if answer == ['SATISFIABLE']:
                 result = True
-            elif line.split()[1] == 'UNSATISFIABLE':
+            elif answer == ['UNSATISFIABLE']:
                 result = False
             else:
                 result = None
